@@ -5,7 +5,7 @@ mirrors encoding/json's decisions when decoding into `interface{}`, the complete
 `Unmarshal`, and the decidable description of the values that survive.
 
 Go anchors: pkg/document/yson/yson.go `Marshal`, `marshalPrimitive`,
-`preprocessTypeValues`, `dedupCounterRe`, `Unmarshal`; strconv.Quote / IsPrint
+`preprocessTypeValues`, `preprocessTypeTokens`, `dedupCounterRe`, `Unmarshal`; strconv.Quote / IsPrint
 (go1.25.0; tables in Model/IsPrint.lean); encoding/json (scanner + literalStore
 for `interface{}` targets).  Core Lean only.
 
@@ -135,7 +135,9 @@ def marshalKvs : List (Str × Yson) → List Str
   | (k, x) :: r => ([34] ++ k ++ [34, 58] ++ marshal x) :: marshalKvs r
 end
 
-/-! ## preprocessTypeValues -/
+/-! ## preprocessTypeValues (since /repo commit 0cf3884e: string literals and object keys
+are copied verbatim; only the text between them is rewritten).
+The pre-pass of the pinned tree is kept, as `preprocessV0`, in Model/YsonV0.lean. -/
 
 def stripPrefix : Str → Str → Option Str
   | [], s => some s
@@ -143,42 +145,6 @@ def stripPrefix : Str → Str → Option Str
   | p :: ps, c :: r => if p == c then stripPrefix ps r else none
 
 def isPrefixOf (p s : Str) : Bool := (stripPrefix p s).isSome
-
-def spanNotQuote : Str → Str × Str
-  | [] => ([], [])
-  | c :: r => if c == 34 then ([], c :: r) else (c :: (spanNotQuote r).1, (spanNotQuote r).2)
-
-/-- one attempt of `DedupCounter\(Int\((-?\d+)\),"([^"]+)"\)` at the head of `s`:
-the two groups and the length of the match (the expression has no real
-alternatives, so leftmost-first matching is this deterministic scan) -/
-def dedupMatch (s : Str) : Option (Str × Str × Nat) :=
-  match stripPrefix cp%"DedupCounter(Int(" s with
-  | none => none
-  | some r1 =>
-    let sign := (jSign r1).1                 -- `-?`
-    let ds := (takeDigits (jSign r1).2).1    -- `\d+`
-    let r3 := (takeDigits (jSign r1).2).2
-    if ds.isEmpty then none else
-    match stripPrefix cp%"),\"" r3 with
-    | none => none
-    | some r4 =>
-      let body := (spanNotQuote r4).1        -- `[^"]+`
-      if body.isEmpty then none else
-      match (spanNotQuote r4).2 with
-      | 34 :: 41 :: _ => some (sign ++ ds, body, 17 + sign.length + ds.length + 3 + body.length + 2)
-      | _ => none
-
-/-- `dedupCounterRe.ReplaceAllString(data, …$1…$2…)`; `skip` chars of a previous
-match are still to be dropped -/
-def dedupReplace : Nat → Str → Str
-  | _, [] => []
-  | skip + 1, _ :: r => dedupReplace skip r
-  | 0, c :: r =>
-    match dedupMatch (c :: r) with
-    | some (g1, g2, len) =>
-      cp%"{\"type\":\"DedupCounter\",\"counterType\":\"Int\",\"value\":" ++ g1 ++ cp%",\"hll\":\"" ++ g2 ++ cp%"\"}"
-        ++ dedupReplace (len - 1) r
-    | none => c :: dedupReplace 0 r
 
 /-- `strings.ReplaceAll(s, pat, rep)` for a non-empty `pat` -/
 def replaceAllAux (pat rep : Str) : Nat → Str → Str
@@ -190,7 +156,7 @@ def replaceAllAux (pat rep : Str) : Nat → Str → Str
 
 def replaceAll (pat rep : Str) (s : Str) : Str := replaceAllAux pat rep 0 s
 
-/-- the replacement table, in the order of the Go slice -/
+/-- the replacement table of preprocessTypeTokens, in the order of the Go slice -/
 def replacements : List (Str × Str) := [
   (cp%"Text()", cp%"{\"type\":\"Text\",\"value\":[]}"),
   (cp%"Tree()", cp%"{\"type\":\"Tree\",\"value\":{}}"),
@@ -199,8 +165,8 @@ def replacements : List (Str × Str) := [
   (cp%"Tree(", cp%"{\"type\":\"Tree\",\"value\":"),
   (cp%"Int(", cp%"{\"type\":\"Int\",\"value\":"),
   (cp%"Long(", cp%"{\"type\":\"Long\",\"value\":"),
-  (cp%"BinData(\"", cp%"{\"type\":\"BinData\",\"value\":\""),
-  (cp%"Date(\"", cp%"{\"type\":\"Date\",\"value\":\""),
+  (cp%"BinData(", cp%"{\"type\":\"BinData\",\"value\":"),
+  (cp%"Date(", cp%"{\"type\":\"Date\",\"value\":"),
   (cp%")", cp%"}")
 ]
 
@@ -208,7 +174,48 @@ def applyReplacements : List (Str × Str) → Str → Str
   | [], s => s
   | (p, r) :: rest, s => applyReplacements rest (replaceAll p r s)
 
-def preprocess (s : Str) : Str := applyReplacements replacements (dedupReplace 0 s)
+/-- does the whole text match `DedupCounter\(Int\((-?\d+)\),` ?  (the group) -/
+def dedupHeadMatch (s : Str) : Option Str :=
+  match stripPrefix cp%"DedupCounter(Int(" s with
+  | none => none
+  | some r1 =>
+    let sign := (jSign r1).1                 -- `-?`
+    let ds := (takeDigits (jSign r1).2).1    -- `\d+`
+    let r3 := (takeDigits (jSign r1).2).2
+    if ds.isEmpty then none
+    else if r3 == [41, 44] then some (sign ++ ds)   -- `\),$`
+    else none
+
+/-- `dedupCounterRe.ReplaceAllString(seg, …$1…)` with dedupCounterRe =
+`DedupCounter\(Int\((-?\d+)\),$`: the leftmost position from which the rest of the
+piece is a dedup-counter head -/
+def dedupHead : Str → Str
+  | [] => []
+  | c :: r =>
+    match dedupHeadMatch (c :: r) with
+    | some g => cp%"{\"type\":\"DedupCounter\",\"counterType\":\"Int\",\"value\":" ++ g ++ cp%",\"hll\":"
+    | none => c :: dedupHead r
+
+/-- preprocessTypeTokens: a piece of text without string literal -/
+def preprocessTokens (seg : Str) : Str := applyReplacements replacements (dedupHead seg)
+
+mutual
+/-- preprocessTypeValues, outside a string literal; `seg` is the piece read since the
+last literal -/
+def ppOut : Str → Str → Str
+  | seg, [] => preprocessTokens seg
+  | seg, c :: r => if c == 34 then preprocessTokens seg ++ 34 :: ppIn r else ppOut (seg ++ [c]) r
+/-- inside a string literal: copied up to the closing quote -/
+def ppIn : Str → Str
+  | [] => []
+  | c :: r => if c == 34 then 34 :: ppOut [] r else if c == 92 then 92 :: ppEsc r else c :: ppIn r
+/-- after a backslash inside a string literal -/
+def ppEsc : Str → Str
+  | [] => []
+  | c :: r => c :: ppIn r
+end
+
+def preprocess (s : Str) : Str := ppOut [] s
 
 /-! ## encoding/json into `interface{}` -/
 
@@ -417,7 +424,6 @@ inductive Atom where
   | long (n : Int)         -- int64 payload of Long / Counter(Long)
   | dbl (d : Dbl)
   | date (t : Str)
-  | dedup (regs : List Nat)
   | typeMember             -- a nested object with a string member "type"
 deriving DecidableEq, Repr
 
@@ -455,7 +461,7 @@ def atoms : Yson → List Atom
   | .bytes _ => []
   | .date t => [.date t]
   | .counter (.long n) => [.long n]
-  | .counter (.dedup _ regs) => [.dedup regs]
+  | .counter (.dedup _ _) => []
   | .counter (.int _) => []
   | .text ns => textAtoms ns
   | .tree r => treeAtoms r
@@ -474,19 +480,6 @@ def rootAtoms : Yson → List Atom
   | .obj kvs => atomsKvs kvs
   | v => atoms v
 
-def containsSub (pat : Str) : Str → Bool
-  | [] => pat.isEmpty
-  | c :: r => isPrefixOf pat (c :: r) || containsSub pat r
-
-def endsWith (suf s : Str) : Bool := isPrefixOf suf.reverse s.reverse
-
-/-- text inside a string literal (or key) that the pre-pass rewrites -/
-def prepassHits (s : Str) : Bool :=
-  s.contains 41
-  || containsSub cp%"Counter(" s || containsSub cp%"Text(" s || containsSub cp%"Tree(" s
-  || containsSub cp%"Int(" s || containsSub cp%"Long(" s
-  || endsWith cp%"BinData(" s || endsWith cp%"Date(" s
-
 /-- strconv.Quote writes an escape that JSON does not have -/
 def goOnlyEscape (c : Nat) : Bool :=
   c != 34 && c != 92 && !isPrint c &&
@@ -495,36 +488,30 @@ def goOnlyEscape (c : Nat) : Bool :=
 def keyNeedsEscape (c : Nat) : Bool := c == 34 || c == 92 || c < 32
 
 inductive Tag where
-  | longPrecision | typeMember | prepassInString | goQuote | keyUnescaped
-  | doubleNonFinite | dateRange | dedupEmpty
+  | longPrecision | typeMember | goQuote | keyUnescaped | doubleNonFinite | dateRange
 deriving DecidableEq, Repr
 
 def Tag.name : Tag → String
   | .longPrecision => "c18-long-precision"
   | .typeMember => "c18-type-member"
-  | .prepassInString => "c18-prepass-in-string"
   | .goQuote => "c18-go-quote"
   | .keyUnescaped => "c18-key-unescaped"
   | .doubleNonFinite => "c18-double-nonfinite"
   | .dateRange => "c18-date-range"
-  | .dedupEmpty => "c18-dedup-empty"
 
 def Tag.all : List Tag :=
-  [.longPrecision, .typeMember, .prepassInString, .goQuote, .keyUnescaped, .doubleNonFinite, .dateRange, .dedupEmpty]
+  [.longPrecision, .typeMember, .goQuote, .keyUnescaped, .doubleNonFinite, .dateRange]
 
 /-- does the atom exhibit the unsafe shape `t`? -/
 def Atom.hits : Atom → Tag → Bool
   | .long n, .longPrecision => i64OfInt n != n
   | .typeMember, .typeMember => true
-  | .qstr s, .prepassInString => prepassHits s
-  | .key s, .prepassInString => prepassHits s
   | .qstr s, .goQuote => s.any goOnlyEscape
   | .key s, .keyUnescaped => s.any keyNeedsEscape
   | .dbl .nan, .doubleNonFinite => true
   | .dbl .posInf, .doubleNonFinite => true
   | .dbl .negInf, .doubleNonFinite => true
   | .date t, .dateRange => !dateValid t
-  | .dedup regs, .dedupEmpty => regs.isEmpty
   | _, _ => false
 
 def Atom.safe (a : Atom) : Bool := Tag.all.all (fun t => !a.hits t)
